@@ -20,6 +20,7 @@ type Obj struct {
 	epoch uint64
 	id    uint32
 	HB    uint64
+	vc    vclock
 }
 
 // Touch (re)assigns the per-run identity of an object. It reports whether the
@@ -32,6 +33,7 @@ func (o *Obj) Touch() bool {
 	nextObj++
 	o.id = nextObj
 	o.HB = 0 // purely causal: identity comes from the history of the threads touching it
+	o.vc = nil
 	return true
 }
 
@@ -52,6 +54,7 @@ type Op struct {
 	Obj     *Obj
 	More    []*Obj        // further objects the operation reads (select)
 	Enabled func() bool   // nil = always enabled
+	Release bool          // the operation's effect is already applied when Point is called (Unlock): publish the clock before yielding
 	Quiesce bool          // enabled only when nothing else can run and no deadline is armed
 	Horizon time.Duration // Quiesce: deadlines further away than this do not count (0 = drain all)
 }
@@ -66,6 +69,8 @@ type Thread struct {
 	started bool
 	nspawn  int
 	hb      uint64
+	vc      vclock
+	idx     int
 	fn      func()
 	// Handoff is used by vchan for rendezvous on unbuffered channels.
 	Handoff interface{}
@@ -144,6 +149,7 @@ type Config struct {
 	MaxSteps  int
 	MaxClock  int
 	Trace     bool
+	Race      bool // happens-before race monitor for instrumented map accesses (race.go)
 	StartTime time.Time
 	// Visit, if set, is asked at every choice point beyond the prefix whether the
 	// state (happens-before key) was already expanded with at most this cost; true prunes.
@@ -165,6 +171,7 @@ type Result struct {
 	HBFinal    uint64
 	Conflicts  int // points where >1 real thread was enabled
 	Pruned     bool
+	Races      []RaceRec
 }
 
 type TimerEnt struct {
@@ -195,6 +202,7 @@ type Run struct {
 	clockObj Obj
 	cost     int
 	noBranch int
+	maps     map[uintptr]*mapRec
 	// Locals lets harness-level helpers keep per-run state.
 	Locals map[string]interface{}
 }
@@ -251,7 +259,7 @@ func Execute(cfg Config, body func()) *Result {
 	if !cfg.StartTime.IsZero() {
 		r.now = cfg.StartTime
 	}
-	r.clockT = &Thread{Path: []int{1 << 30}, Name: "clock"}
+	r.clockT = &Thread{Path: []int{1 << 30}, Name: "clock", idx: 0}
 	cur = r
 	t0 := r.newThread([]int{0}, body)
 	r.current = nil
@@ -282,6 +290,7 @@ func (r *Run) newThread(path []int, fn func()) *Thread {
 	t := &Thread{Path: path, wake: make(chan struct{}, 1), fn: fn}
 	t.hb = hashStr(t.ID())
 	r.threads = append(r.threads, t)
+	t.idx = len(r.threads) // 0 is the clock
 	return t
 }
 
@@ -375,6 +384,9 @@ func (r *Run) Point(op Op) {
 	t.pending = &op
 	r.parkSeq++
 	t.parkSeq = r.parkSeq
+	if r.cfg.Race && op.Release && op.Obj != nil {
+		r.syncVC(t, op.Obj)
+	}
 	r.reschedule(t)
 	t.pending = nil
 	// happens-before bookkeeping
@@ -392,8 +404,14 @@ func (r *Run) Point(op Op) {
 		if !op.Obj.Anon {
 			oid = op.Obj.id
 		}
+		if r.cfg.Race {
+			r.syncVC(t, append([]*Obj{op.Obj}, op.More...)...)
+		}
 	} else {
 		t.hb = mix(t.hb, hashStr(op.Kind))
+		if op.Quiesce {
+			r.barrierVC(t)
+		}
 	}
 	r.fp = mix(r.fp, mix(hashStr(t.ID()), mix(hashStr(op.Kind), uint64(oid))))
 	r.trace(t, op.Kind, op.Obj, "")
@@ -570,6 +588,7 @@ func (r *Run) TouchHB(kind string, objs ...*Obj) {
 		o.HB = h
 	}
 	t.hb = h
+	r.syncVC(t, objs...)
 }
 
 // Choose asks the explorer for a data choice in [0,n). fault marks non-default
@@ -609,6 +628,7 @@ func Go(fn func()) {
 	p.nspawn++
 	t := r.newThread(path, fn)
 	t.hb = mix(t.hb, p.hb)
+	r.inheritVC(t, p)
 	r.trace(p, "go", nil, t.ID())
 	r.Point(Op{Kind: "go"})
 }
@@ -673,6 +693,9 @@ func (r *Run) Now() time.Time {
 	if r.current != nil {
 		r.clockObj.Touch()
 		r.current.hb = mix(r.current.hb, mix(r.clockObj.HB, 0x90))
+		if r.cfg.Race { // a read of the clock: ordered after whatever advanced it
+			r.current.vc = joinVC(r.current.vc, r.clockObj.vc)
+		}
 	}
 	return r.now
 }
@@ -745,6 +768,13 @@ func (r *Run) fireClock() {
 		e.obj.HB = h
 	}
 	r.clockT.hb = h
+	if r.cfg.Race {
+		objs := []*Obj{&r.clockObj}
+		for _, e := range due {
+			objs = append(objs, e.obj)
+		}
+		r.syncVC(r.clockT, objs...)
+	}
 	if r.cfg.Trace {
 		r.res.Trace = append(r.res.Trace, TraceEv{T: "clock", Op: "fire", Note: fmt.Sprintf("now=+%v n=%d", r.now.Sub(baseTime), len(due))})
 	}
@@ -763,6 +793,7 @@ func (r *Run) SpawnFromClock(fn func()) {
 	p.nspawn++
 	t := r.newThread(path, fn)
 	t.hb = mix(t.hb, p.hb)
+	r.inheritVC(t, p)
 }
 
 // Fail lets harness code abort the current execution with a recorded panic-like failure.
